@@ -55,23 +55,44 @@ Qed.
 (* without the feature (or for an unknown / disconnected sender) handle_msg submits nothing of its own:
    its output is that of the node-table update alone *)
 Lemma no_mirror_without_feature w m :
-  m_type m <> MSG_NODE_NEW -> secack_at (w_boards w) (m_addr m) = false ->
+  m_type m <> MSG_NODE_NEW -> m_type m <> MSG_NODE_LOST -> secack_at (w_boards w) (m_addr m) = false ->
   handle_msg w m = ({| w_boards := w_boards w;
                        w_flow := fst (flow_step (w_flow w) (FUp (m_addr m) (m_type m) (last_byte (m_raw m)))) |},
                     snd (flow_step (w_flow w) (FUp (m_addr m) (m_type m) (last_byte (m_raw m))))).
 Proof.
-  intros Hn Hs. unfold handle_msg. destruct (flow_step (w_flow w) _) as [f1 p1].
-  apply N.eqb_neq in Hn. rewrite Hn, Hs. reflexivity.
+  intros Hn Hl Hs. unfold handle_msg. destruct (flow_step (w_flow w) _) as [f1 p1].
+  apply N.eqb_neq in Hn. apply N.eqb_neq in Hl. rewrite Hn, Hl, Hs. reflexivity.
 Qed.
 
 (* with the feature: exactly one submission (the mirror) followed by a flush *)
 Lemma mirror_once w m ty d :
-  m_type m <> MSG_NODE_NEW -> secack_at (w_boards w) (m_addr m) = true ->
+  m_type m <> MSG_NODE_NEW -> m_type m <> MSG_NODE_LOST -> secack_at (w_boards w) (m_addr m) = true ->
   mirror_of (m_type m) (msg_data (m_raw m)) = Some (ty, d) ->
   let f1 := fst (flow_step (w_flow w) (FUp (m_addr m) (m_type m) (last_byte (m_raw m)))) in
   fst (handle_msg w m) = {| w_boards := w_boards w;
                             w_flow := fst (flow_run f1 [FSend (addr3_of (m_addr m)) ty d; FFlush]) |}.
 Proof.
-  intros Hn Hs Hm. unfold handle_msg. destruct (flow_step (w_flow w) _) as [f1 p1]. cbn [fst].
-  apply N.eqb_neq in Hn. rewrite Hn, Hs, Hm. destruct (flow_run f1 _) as [f2 p2]. reflexivity.
+  intros Hn Hl Hs Hm. unfold handle_msg. destruct (flow_step (w_flow w) _) as [f1 p1]. cbn [fst].
+  apply N.eqb_neq in Hn. apply N.eqb_neq in Hl. rewrite Hn, Hl, Hs, Hm. destruct (flow_run f1 _) as [f2 p2]. reflexivity.
 Qed.
+
+(* after a loss notice the board with that unique id (the first one, which is the one every lookup by unique id finds) is
+   disconnected, so it is not the sender of later reports from its former address, whoever logs in there *)
+Lemma lost_go_first lost uid iface l :
+  match find (fun b => list_eqb (sb_uid b) uid) (lost_go lost uid iface l false) with
+  | Some b => sb_conn b = false
+  | None => True
+  end.
+Proof.
+  induction l as [|x r IH]; [exact I|]. cbn [lost_go negb andb].
+  destruct (list_eqb (sb_uid x) uid) eqn:E.
+  - cbn [find]. destruct (iface && _); cbn [set_conn sb_uid sb_conn]; rewrite E; reflexivity.
+  - cbn [orb find]. destruct (iface && _); cbn [set_conn sb_uid]; rewrite E; exact IH.
+Qed.
+
+Lemma node_lost_first_disconnected bs announcer local uid :
+  match find (fun b => list_eqb (sb_uid b) uid) (node_lost bs announcer local uid) with
+  | Some b => sb_conn b = false
+  | None => True
+  end.
+Proof. apply lost_go_first. Qed.
